@@ -2135,14 +2135,15 @@ fn may_contain_braces_to_expand(s: &str) -> bool {
     let mut saw_opening_brace = false;
     let mut saw_closing_brace = false;
     for c in s.chars() {
-        if !last_was_unescaped_dollar_sign {
-            if c == '{' {
+        if c == '{' {
+            // A brace right after an unescaped dollar sign opens a parameter expansion.
+            if !last_was_unescaped_dollar_sign {
                 saw_opening_brace = true;
-            } else if c == '}' {
-                saw_closing_brace = true;
-                if saw_opening_brace {
-                    return true;
-                }
+            }
+        } else if c == '}' {
+            saw_closing_brace = true;
+            if saw_opening_brace {
+                return true;
             }
         }
 
